@@ -350,8 +350,10 @@ def main(run):
                         "tolerance clause: the model's pairShortestTol decides |r| - min|r| < symprec exactly (tolerance_rule_is_in_length) on the "
                         "search window; completeness over all images under the tolerance is carried by the brute-force oracle of the near-tolerance "
                         "stream, with a factor-10 margin on both sides of symprec"]
-    run.cov["partial"] = ["FullStatement_window: completeness of the 65-point search window for every Niggli-reduced lattice is unproved "
-                          "(impl_subset_spec_iff reduces the property to it); covered by the exhaustive-image oracle on every generated case"]
+    run.cov["partial"] = ["FullStatement_window: completeness of the 65-point search window for EVERY Niggli-reduced lattice is unproved; "
+                          "window_complete_of_certificate makes it a theorem for each lattice whose decidable certificate windowCert passes "
+                          "(evaluated in Lean on the implementation's reduced Gram matrix for every generated lattice, counted in "
+                          "coverage.correspondence), all separations at once; otherwise the per-pair comparison with specShortest decides"]
 
     lines, meta = [], []
     lines.append("window")
@@ -461,6 +463,8 @@ def main(run):
         T = tmi.T  # what the Python layer hands to the kernel as trans_mat
         lines.append("pd " + qs(flat(Gred)))
         meta.append(("pd", case, None))
+        lines.append("wincert 60000 " + qs(flat(Gred)))
+        meta.append(("wincert", case, None))
         lines.append("svecs %s %s %d %s %d %d %s %s" % (qs(flat(Gred)), ints(T), len(lp), ints(lp), nto, nfrom, qs(flat(exact_to)), qs(flat(exact_from))))
         meta.append(("svecs", case, (dsv, dmu, ssv, smu, scale)))
         # completeness oracle through the model's specShortest: every pair of the first `nspec` lattices, one pair afterwards
@@ -627,6 +631,8 @@ def main(run):
             info = dict(cell=name, supercell_matrix=smat.tolist(), path="Primitive.get_smallest_vectors")
             lines.append("pd " + qs(flat(Gred)))
             meta.append(("pd", info, None))
+            lines.append("wincert 60000 " + qs(flat(Gred)))
+            meta.append(("wincert", info, None))
             lines.append("svecs %s %s %d %s %d %d %s %s" % (qs(flat(Gred)), ints(Ttot), len(lp), ints(lp), len(exact_to), len(exact_from),
                                                            qs(flat(exact_to)), qs(flat(exact_from))))
             smu0 = np.array(mu[:, :, 0], dtype="intc")
@@ -677,6 +683,16 @@ def main(run):
                         okk = False
             if not okk:
                 run.broke("correspondence", "sparse kernel differs from the model", case)
+        elif kind == "wincert":
+            tk = o.split()
+            run.count("reduced basis passes wellReduced" if tk[-1] == "1" else "reduced basis does NOT pass wellReduced", section="correspondence")
+            if tk[0] == "1":
+                run.count("window certificate passes: completeness is a theorem for this lattice, all separations", section="correspondence")
+            elif tk[0] == "skip":
+                run.count("window certificate not evaluated (box > 60000 points)", section="correspondence")
+            else:
+                run.count("window certificate inconclusive (per-pair specShortest comparison decides)", section="correspondence")
+                run.sample(dict(kind="window certificate inconclusive", case=case), limit=8)
         elif kind == "svecstol":
             dsv, dmu, scale = impl
             tk = o.split()
